@@ -577,7 +577,7 @@ class C18(Property):
 
     def _cases(self, seed, tier, widen):
         rng = random.Random(f'C18-{seed}')
-        n = (900 if tier == 'quick' else 20000) * widen
+        n = (4000 if tier == "quick" else 60000) * widen
         cases = _fixed_cases() + [W_REMOVE, W_REARM, W_WLMSG]
         for _ in range(n):
             cases.append(_gen_instant(rng) if rng.random() < 0.4 else _gen_random(rng))
